@@ -158,38 +158,46 @@ def camtRecord (e : CamtEntry) (d : Option TxDetails) : Record := fun f =>
   | .payee => .payee none
   | _ => .text none false
 
-/-- the transaction of an entry without `TxDtls`. -/
-def entryTxn (cap : Captures) (cfg : CamtCfg) (e : CamtEntry) : Outcome ImportErr Txn :=
+/-- an entry without `TxDtls`, before its charges are added -/
+def entryBase (cap : Captures) (cfg : CamtCfg) (e : CamtEntry) : Txn :=
   let amount := e.amount.toData e.cd
   let fragment := extract cap cfg.rewrite (camtRecord e none)
   let txn := Txn.new e.guessValueDate (fragment.payee.getD "unknown payee") amount
   let txn := (txn.setEffectiveDate e.bookingDate).destAccountOption fragment.account
-  let txn := if !fragment.cleared then txn.setClearState .pending else txn
-  addCharges cfg.operator txn e.charges
+  if !fragment.cleared then txn.setClearState .pending else txn
 
-/-- the transaction of one `TxDtls` of an entry. -/
-def detailTxn (cap : Captures) (cfg : CamtCfg) (e : CamtEntry) (d : TxDetails) : Outcome ImportErr Txn :=
+/-- the transaction of an entry without `TxDtls`. -/
+def entryTxn (cap : Captures) (cfg : CamtCfg) (e : CamtEntry) : Outcome ImportErr Txn :=
+  addCharges cfg.operator (entryBase cap cfg e) e.charges
+
+/-- one `TxDtls`, before amount details and charges -/
+def detailBase (cap : Captures) (cfg : CamtCfg) (e : CamtEntry) (d : TxDetails) : Txn :=
   let amount := d.amount.toData d.cd
   let fragment := extract cap cfg.rewrite (camtRecord e (some d))
   let txn := Txn.new e.guessValueDate (fragment.payee.getD "unknown payee") amount
   let txn := ((txn.setEffectiveDate e.bookingDate).codeOption d.ref).destAccountOption fragment.account
-  let txn := if !fragment.cleared then txn.setClearState .pending else txn
-  let withDetails : Outcome ImportErr Txn :=
-    match d.txAmount with
-    | none => .ok txn
-    | some ta =>
-      if !(d.amount.eq ta.amount) then
-        let rated : Outcome ImportErr Txn :=
-          match ta.exchange with
-          | some x => txn.addRate ⟨x.source, x.target⟩ x.rate
-          | none => .ok txn
-        match rated with
+  if !fragment.cleared then txn.setClearState .pending else txn
+
+/-- `if let Some(amount_details) …`: when the transaction amount of the amount details differs from the detail's
+amount it becomes the transferred amount (with the currency exchange, if any, as rate). -/
+def withAmountDetails (txn : Txn) (d : TxDetails) : Outcome ImportErr Txn :=
+  match d.txAmount with
+  | none => .ok txn
+  | some ta =>
+    if !(d.amount.eq ta.amount) then
+      match ta.exchange with
+      | some x =>
+        match txn.addRate ⟨x.source, x.target⟩ x.rate with
         | .ok t => .ok (t.setTransferredAmount (ta.amount.toData d.cd))
         | .err e => .err e
         | .panic s => .panic s
         | .fuelOut => .fuelOut
-      else .ok txn
-  match withDetails with
+      | none => .ok (txn.setTransferredAmount (ta.amount.toData d.cd))
+    else .ok txn
+
+/-- the transaction of one `TxDtls` of an entry. -/
+def detailTxn (cap : Captures) (cfg : CamtCfg) (e : CamtEntry) (d : TxDetails) : Outcome ImportErr Txn :=
+  match withAmountDetails (detailBase cap cfg e d) d with
   | .ok t =>
     match addCharges cfg.operator t e.charges with
     | .ok t2 => addCharges cfg.operator t2 d.charges
